@@ -44,6 +44,7 @@ func runDBRP(x *core.Ctx, r *core.Rng, live bool) {
 	}
 	nq := r.Range(1, 3)
 	allowed := true
+	subq := false
 	firstBad := ""
 	script := ""
 	var names []string
@@ -63,7 +64,17 @@ func runDBRP(x *core.Ctx, r *core.Rng, live bool) {
 					firstBad = fmt.Sprintf("query %d source %d", qi, si)
 				}
 			}
-			srcs = append(srcs, fmt.Sprintf("\"%s\".\"%s\".\"%s\"", p.db, p.rp, []string{"cpu", "mem"}[r.Intn(2)]))
+			src := fmt.Sprintf("\"%s\".\"%s\".\"%s\"", p.db, p.rp, []string{"cpu", "mem"}[r.Intn(2)])
+			if r.Chance(0.15) {
+				// the pair is read inside a subquery (whether subqueries are supported at all is
+				// not judged; reading an undeclared pair through one must not be possible)
+				src = "(SELECT value FROM " + src + ")"
+				if r.Chance(0.3) {
+					src = "(SELECT value FROM " + src + ")"
+				}
+				subq = true
+			}
+			srcs = append(srcs, src)
 		}
 		every := "10s"
 		if live {
@@ -93,6 +104,10 @@ func runDBRP(x *core.Ctx, r *core.Rng, live bool) {
 	}
 	defer tm.Close()
 	fail := func(kind, key, format string, a ...interface{}) {
+		if subq && kind == "batchqueries-error" {
+			x.Count("subquery_tasks_rejected_not_judged", 1)
+			return
+		}
 		x.Violatef(kind, key, sub, "declared %v\nscript:\n%s"+format, append([]interface{}{dbrps, script}, a...)...)
 	}
 	shape := fmt.Sprintf("nq=%d nd=%d allowed=%v live=%v bad=%s", nq, nd, allowed, live, firstBad)
@@ -106,15 +121,23 @@ func runDBRP(x *core.Ctx, r *core.Rng, live bool) {
 		if !ok {
 			return true
 		}
-		for _, s := range sel.Sources {
-			if m, ok := s.(*influxql.Measurement); ok {
-				if !declared[pair{m.Database, m.RetentionPolicy}] {
-					fail("query-undeclared-dbrp", "a query reading an undeclared db/rp was handed out", "\nquery: %s reads %q.%q", q, m.Database, m.RetentionPolicy)
-					return false
+		okAll := true
+		var walk func(srcs influxql.Sources)
+		walk = func(srcs influxql.Sources) {
+			for _, s := range srcs {
+				switch m := s.(type) {
+				case *influxql.Measurement:
+					if okAll && !declared[pair{m.Database, m.RetentionPolicy}] {
+						fail("query-undeclared-dbrp", "a query reading an undeclared db/rp was handed out", "\nquery: %s reads %q.%q", q, m.Database, m.RetentionPolicy)
+						okAll = false
+					}
+				case *influxql.SubQuery:
+					walk(m.Statement.Sources)
 				}
 			}
 		}
-		return true
+		walk(sel.Sources)
+		return okAll
 	}
 	task, err := tm.NewTask("b", script, kapacitor.BatchTask, dbrps, 0, nil)
 	if err != nil {
